@@ -301,7 +301,14 @@ theorem gc_fragmentDefinition (n : Nat) (s : PState) (hw : W s) (hb : 4 * Mm s +
   unfold fragmentDefinition
   refine gc_withNode _ _ s hw ?_
   intro s2 hw2 hM2
-  refine gc_first (gc_bump _ s2 hw2) ?_
-  ta_defs
+  -- the description check: `err_and_pop` consumes the string, otherwise `bump` consumes the keyword
+  refine gc_peek hw2 ?_
+  intro k s3 hw3 hM3 hk
+  dsimp only
+  split
+  · refine gc_first (gc_errAndPop s3 hw3) ?_
+    ta_defs
+  · refine gc_first (gc_bump _ s3 hw3) ?_
+    ta_defs
 
 end Apollo.Parse
